@@ -4,9 +4,10 @@ pub fn split_at_point(self) -> (Self, Self)
     requires
         B >= 2,
         !(self.repr.significand.v() == 0 && self.repr.exponent != 0),          // finite
-        // machine ranges (memory limits; overflow of isize in `exponent + digits` is outside this contract)
-        -0x1000_0000_0000_0000 < self.repr.exponent,
-        ndigits(B as int, self.repr.significand.v()) < 0x1000_0000_0000_0000,
+        // machine ranges: `-exponent` fits isize (overflow of isize is outside this contract), fewer than 2^56 digits
+        // (memory limit; `digits_ub() as isize` does not wrap)
+        isize::MIN < self.repr.exponent,
+        ndigits(B as int, self.repr.significand.v()) < 0x100_0000_0000_0000,
     ensures
         // C10: (trunc, fract) of ONE split s == t * B^(-e) + l, |l| < B^(-e), l == 0 or sign(l) == sign(s):
         // ret.0 has the value t, ret.1 the value l * B^e, hence ret.0 + ret.1 == self exactly
@@ -34,9 +35,13 @@ pub fn split_at_point(self) -> (Self, Self)
         }
 
         let shift = (-self.repr.exponent) as usize;
+        /*@ proof { assert(pos_room(shift as int)); } // resource precondition of split_digits: at most 2*digits + 3 < 2^58 positions @*/
         let (hi, lo) = split_digits::<B>(self.repr.significand, shift);
         /*@ let ghost (hv, lv) = (hi.v(), lo.v());
-            proof { assert(fl_split(b, s, e, hv, lv)); } @*/
+            proof {
+                assert(fl_split(b, s, e, hv, lv));
+                lemma_split_exp_room(b, s, shift as nat, hv, lv, 0);   // room for Repr::new (resource limit, C16)
+            } @*/
         let hi_ctxt = Context::new(self.context.precision.saturating_sub(shift));
         let lo_ctxt = Context::new(shift);
         (
